@@ -45,3 +45,81 @@ Theorem rle_spec_decoder_sound : forall w rs, Forall (wf_run w) rs ->
   spec_decode_all w (bytes_of_runs w rs) = Some (runs_vals rs).
 Proof. exact spec_decode_all_runs. Qed.
 Print Assumptions rle_spec_decoder_sound.
+
+(* ====================================================================================
+   C12, other encodings: restated from the enc2 engine (models Enc/Plain*, Delta*, DeltaLen*, DeltaStr*,
+   Bss*, Dict*; values are bit patterns, [len] is the length as N).
+   ==================================================================================== *)
+From Coq Require Import ZArith.
+From Carquet Require Import Base.Res Enc.DeltaBits
+  Enc.PlainSpec Enc.PlainModel Enc.PlainProofs Enc.BssSpec Enc.BssModel Enc.BssProofs
+  Enc.DeltaSpec Enc.DeltaModel Enc.DeltaArith Enc.DeltaProofs Enc.DeltaLenModel Enc.DeltaStrModel Enc.DeltaStrProofs
+  Enc.DictModel Enc.DictProofs.
+
+(* ---------------------------------------------------------------- PLAIN *)
+Theorem plain_fixed_encode_conforms : forall k vs, Forall (fun v => v < 256 ^ N.of_nat k) vs ->
+  spec_fixed_dec k (length vs) (enc_fixed k vs) = Some (vs, []).
+Proof. exact PlainProofs.plain_fixed_encode_conforms. Qed.
+Print Assumptions plain_fixed_encode_conforms.
+
+Theorem plain_fixed_decode_accepts : forall k n bs vs rest, (0 < k)%nat ->
+  spec_fixed_dec k n bs = Some (vs, rest) ->
+  dec_fixed k bs (N.of_nat n) = Ok (vs, N.of_nat k * N.of_nat n).
+Proof. exact PlainProofs.plain_fixed_decode_accepts. Qed.
+Print Assumptions plain_fixed_decode_accepts.
+
+Theorem plain_byte_array_encode_conforms : forall vs, Forall ba_ok vs ->
+  spec_ba_dec (length vs) (plain_encode_byte_array vs) = Some (vs, []).
+Proof. exact PlainProofs.plain_byte_array_encode_conforms. Qed.
+Print Assumptions plain_byte_array_encode_conforms.
+
+Theorem plain_byte_array_decode_accepts : forall n bs vs rest, spec_ba_dec n bs = Some (vs, rest) ->
+  plain_decode_byte_array bs (N.of_nat n) = Ok (vs, len bs - len rest).
+Proof. exact PlainProofs.plain_byte_array_decode_accepts. Qed.
+Print Assumptions plain_byte_array_decode_accepts.
+
+(* ---------------------------------------------------------------- DELTA_BINARY_PACKED *)
+Theorem delta64_encode_conforms : forall vs, vs <> [] -> Forall DeltaProofs.u64v vs -> len vs < W64 ->
+  spec_delta_decode 64 (delta_bytes_int64 vs) = Some {| ds_block := 128; ds_minis := 4; ds_values := vs; ds_rest := [] |}.
+Proof. exact DeltaProofs.delta64_encode_conforms. Qed.
+Print Assumptions delta64_encode_conforms.
+
+Theorem delta32_encode_conforms : forall vs, vs <> [] -> Forall DeltaProofs.u32v vs -> len vs < W64 ->
+  spec_delta_decode 32 (delta_bytes_int32 vs) = Some {| ds_block := 128; ds_minis := 4; ds_values := vs; ds_rest := [] |}.
+Proof. exact DeltaProofs.delta32_encode_conforms. Qed.
+Print Assumptions delta32_encode_conforms.
+
+(* every stream the reference decoder accepts - any legal varints, min delta, widths, junk width bytes of unused
+   mini-blocks, padding - at the geometry carquet supports *)
+Theorem delta64_decode_accepts : forall bs st, bytes bs -> spec_delta_decode 64 bs = Some st ->
+  ds_block st = 128 -> ds_minis st = 4 -> len (ds_values st) < 2 ^ 31 ->
+  delta_decode_int64 bs (len (ds_values st)) = Ok (ds_values st, len bs - len (ds_rest st)).
+Proof. exact DeltaProofs.delta64_decode_accepts. Qed.
+Print Assumptions delta64_decode_accepts.
+
+Theorem delta32_decode_accepts : forall bs st, bytes bs -> spec_delta_decode 32 bs = Some st ->
+  ds_block st = 128 -> ds_minis st = 4 -> len (ds_values st) < 2 ^ 31 ->
+  delta_decode_int32 bs (len (ds_values st)) = Ok (ds_values st, len bs - len (ds_rest st)).
+Proof. exact DeltaProofs.delta32_decode_accepts. Qed.
+Print Assumptions delta32_decode_accepts.
+
+(* the other legal geometries are refused with DECODE, never mis-decoded *)
+Theorem delta_other_geometry_rejected : forall bs block minis r1 r2, bytes bs ->
+  read_uleb bs = Some (block, r1) -> read_uleb r1 = Some (minis, r2) ->
+  legal_geometry block minis = true -> block < 2 ^ 31 -> minis < 2 ^ 31 -> (block, minis) <> (128, 4) ->
+  delta_init bs = Err DeltaModel.ERR_DECODE.
+Proof. exact DeltaProofs.delta_other_geometry_rejected. Qed.
+Print Assumptions delta_other_geometry_rejected.
+
+(* ---------------------------------------------------------------- DELTA_LENGTH_BYTE_ARRAY *)
+Theorem delta_length_encode_conforms : forall vs bs, vs <> [] -> Forall str_ok vs -> len vs < 2 ^ 31 ->
+  delta_length_encode vs = Ok bs -> spec_delta_length_decode bs = Some (vs, []).
+Proof. exact DeltaStrProofs.delta_length_encode_conforms. Qed.
+Print Assumptions delta_length_encode_conforms.
+
+Theorem delta_length_decode_accepts : forall bs vs rest, bytes bs -> vs <> [] -> len vs < 2 ^ 31 ->
+  spec_delta_length_decode bs = Some (vs, rest) ->
+  (exists st, spec_delta_decode 32 bs = Some st /\ ds_block st = 128 /\ ds_minis st = 4) ->
+  delta_length_decode bs (len vs) = Ok (vs, len bs - len rest).
+Proof. exact DeltaStrProofs.delta_length_decode_accepts. Qed.
+Print Assumptions delta_length_decode_accepts.
